@@ -233,6 +233,10 @@ def rule_style(ctx, fx, config):
         # simpler, sound formulation: from the non-Plain edges only `false` assignments are reachable before return
         non_plain_reach = f.reachable(no, avoid=[yes])
         leak = [tb for tb in trues if tb in non_plain_reach and not f.dominates(yes, tb)]
+        # and every possibly-true result lies behind the Plain edge: a second route to `true` that never asks for the style (or
+        # asks a weaker question, such as "not quoted", in a helper) lets a literal / folded scalar spelling `null` be null
+        if len(f.pred[yes]) <= 1:
+            leak += [tb for tb in trues if not f.dominates(yes, tb) and tb not in leak]
         # a join block that assigns a phi is handled by requiring the value there to be the false constant; calls are never allowed
         ctx.check(not leak, "STYLE", key + ":quoted-is-false", "a non-plain scalar always yields false",
                   "%s can answer true for a quoted / block scalar (line(s) %s): quoted text would be taken for null / a number / a boolean" % (name, [f.blocks[x]["term"].get("ln") for x in leak]), config, ctx.where(f))
@@ -383,6 +387,47 @@ def rule_str_tag_everywhere(ctx, fx, config, only=None, prop="C06", floor=12):
                       "%s treats a null-like text as null without looking at a `!!str` tag: `!!str null` / `!!str ~` is read as null (empty container, null merge value, rejected string …) in this position" % f.npath,
                       config, ctx.where(f, b))
     ctx.floor("STYLE.null-test-sites", n, floor, config)
+
+
+def rule_tag_spellings(ctx, fx, config):
+    """TABLE: the tag lookup table reaches every core tag by every text the parser can display for it.  saphyr displays a tag as
+    `<handle>!<suffix>` (`!<suffix>` for the primary handle): `!!str` -> `tag:yaml.org,2002:!str`, `!str` -> `!str`, and a verbatim
+    `!<tag:yaml.org,2002:str>` (empty handle) -> `!tag:yaml.org,2002:str`.  The last one is either a table key or is reduced to
+    its URI (`tag:yaml.org,2002:str`, which must then be a key) before the lookup."""
+    tb = fx.fn("tags::TAG_LOOKUP_MAP::{closure#0}")
+    fo = fx.fn("tags::SfTag::from_optional_cow")
+    ctx.saw(tb)
+    ctx.saw(fo)
+    table = {}
+    for b, i, s_ in tb.stmts():
+        if s_["k"] == "assign" and s_["rv"]["k"] == "aggr" and s_["rv"].get("ak") == "tuple" and len(s_["rv"]["ops"]) == 2:
+            k = tb.sym_operand(s_["rv"]["ops"][0])
+            with tb.deep():
+                v = tb.sym_operand(s_["rv"]["ops"][1])
+            if k[0] == "const" and isinstance(k[1], str) and v[0] == "aggr" and v[1] == "tags::SfTag":
+                table[k[1]] = v[2]
+    ctx.floor("TABLE.tag-rows", len(table), 40, config)
+    # does the lookup reduce `!tag:...` to its URI?
+    strips = False
+    for b, t in fo.calls():
+        if last_seg(fx.callee(t)) == "strip_prefix":
+            a = fo.sym_operand(t["args"][1]) if len(t["args"]) > 1 else None
+            if a and a[0] == "const" and a[1] == "!":
+                # guarded by starts_with("tag:") on the stripped text, and the stripped text is what reaches the lookup
+                with fo.deep():
+                    gets = [fo.sym_operand(gt["args"][1]) for gb, gt in fo.calls() if last_seg(fx.callee(gt)) == "get" and len(gt["args"]) > 1]
+                sw = [x for x, xt in fo.calls() if last_seg(fx.callee(xt)) == "starts_with" and render(fo.sym_operand(xt["args"][1])) == "'tag:'"]
+                strips = bool(sw) and any(sym_contains(g, lambda n: n[0] == "call" and last_seg(n[1]) == "strip_prefix") for g in gets)
+    core = {"int": "Int", "float": "Float", "bool": "Bool", "null": "Null", "seq": "Seq", "map": "Map", "str": "String", "binary": "Binary", "timestamp": "TimeStamp"}
+    for nm, var in sorted(core.items()):
+        forms = {"shorthand `!!%s`" % nm: "tag:yaml.org,2002:!" + nm, "local `!%s`" % nm: "!" + nm}
+        for what, key in sorted(forms.items()):
+            ctx.check(table.get(key) == var, "TABLE", "C06:TABLE:tag-spelling:%s:%s" % (nm, what.split()[0]), "%s (displayed `%s`) is SfTag::%s" % (what, key, var),
+                      "the tag table maps `%s` (%s) to %s, expected SfTag::%s" % (key, what, table.get(key), var), config, ctx.where(tb))
+        verb = "!tag:yaml.org,2002:" + nm
+        okv = table.get(verb) == var or (strips and table.get(verb[1:]) == var)
+        ctx.check(okv, "TABLE", "C06:TABLE:tag-spelling:%s:verbatim" % nm, "verbatim `!<tag:yaml.org,2002:%s>` (displayed `%s`) is SfTag::%s" % (nm, verb, var),
+                  "a verbatim `!<tag:yaml.org,2002:%s>` is displayed as `%s`, which is neither a key of the tag table nor reduced to its URI before the lookup: the scalar is treated as carrying an unknown tag (`!<tag:yaml.org,2002:str> null` reads as null)" % (nm, verb), config, ctx.where(fo))
 
 
 def rule_trim(ctx, fx, config):
@@ -544,5 +589,6 @@ def run(ctx):
         rule_trim(ctx, fx, config)
         rule_str_tag_not_null(ctx, fx, config)
         rule_str_tag_everywhere(ctx, fx, config)
+        rule_tag_spellings(ctx, fx, config)
         rule_wire(ctx, fx, config)
         rule_base64(ctx, fx, config)
